@@ -43,6 +43,10 @@ def to_layout(L, seed):
         if f["k"] == "file":
             n = R.choice([1, 5, 40, 300, 2000])
             e["data"] = bytes(R.getrandbits(8) for _ in range(n))
+            if f["attr"] and i > 0 and R.random() < 0.2:
+                # physically a symbolic link (a file member whose content is the target, unix mode S_IFLNK): to an earlier member's name
+                e["kind"] = "symlink"
+                e["data"] = os.path.relpath(files[R.randrange(len(files))]["name"], os.path.dirname(name) or ".").encode()
         if not f["attr"]:
             e["attrib"] = None
         tm = R.random()
@@ -50,6 +54,10 @@ def to_layout(L, seed):
             e["mtime"] = 132223104000000000 + R.randrange(10 ** 15)
         elif tm < 0.8:
             e["mtime"] = None
+        if R.random() < 0.3:
+            e["ctime"] = 116444736000000000 + R.randrange(10 ** 17)
+        if R.random() < 0.3:
+            e["atime"] = 116444736000000000 + R.randrange(10 ** 17)
         files.append(e)
         datas.append(e.get("data"))
     need_pw = False
@@ -100,10 +108,14 @@ def read_case(case):
                 mt = int(f.lastwritetime) if f.lastwritetime is not None else None
                 at = f._file_info.get("attributes")
                 wat = want.get("attrib", "default")
+                others = all((int(f._file_info[k]) if f._file_info.get(k) is not None else None) == want.get(w)
+                             for k, w in (("creationtime", "ctime"), ("lastaccesstime", "atime")))
+                if want.get("kind") == "symlink":
+                    others = others and f.is_symlink
                 obs["members"].append({"kind": kind, "folder": fidx, "crc": f.crc32 is not None,
                                        "name": f.filename == want.get("name"), "size": f.uncompressed == (len(exp) if exp else 0),
                                        "bytes": (data == exp) if exp is not None else (data in (None, b"")),
-                                       "meta": (mt == want.get("mtime")) and (wat == "default" or at == wat) and (ref[i]["attrib"] == at)})
+                                       "meta": (mt == want.get("mtime")) and (wat == "default" or at == wat) and (ref[i]["attrib"] == at) and others})
             # the same archive into a directory: files with their bytes and (where defined) modification times, directories present
             import shutil
             import tempfile
@@ -117,10 +129,12 @@ def read_case(case):
                     m = obs["members"][i]
                     if m["kind"] == "dir":
                         m["bytes"] = m["bytes"] and os.path.isdir(p)
+                    elif want.get("kind") == "symlink":
+                        m["bytes"] = m["bytes"] and os.path.islink(p) and os.readlink(p).encode() == (datas[i] or b"")
                     else:
                         exp = datas[i] or b""
-                        m["bytes"] = m["bytes"] and os.path.isfile(p) and open(p, "rb").read() == exp
-                        if want.get("mtime") is not None and os.path.isfile(p):
+                        m["bytes"] = m["bytes"] and os.path.isfile(p) and not os.path.islink(p) and open(p, "rb").read() == exp
+                        if want.get("mtime") is not None and os.path.isfile(p) and not os.path.islink(p):
                             secs = (want["mtime"] - 116444736000000000) / 10 ** 7
                             m["meta"] = m["meta"] and abs(os.path.getmtime(p) - secs) < 2e-6 * max(1.0, abs(secs)) + 1e-3
             finally:
